@@ -1407,6 +1407,10 @@ def target_worker_thread(host: str, port: int, shared_aconf: AuditConf) -> Tuple
         SSH1_KexDB.thread_exit()
         SSH2_KexDB.thread_exit()
 
+    # With JSON output every target must yield a valid element of the resulting array, even if it could not be scanned.
+    if my_aconf.json and ret in (exitcodes.CONNECTION_ERROR, exitcodes.UNKNOWN_ERROR):
+        string_output = json.dumps({'target': '%s:%d' % (host, port), 'error': string_output})
+
     return ret, string_output
 
 
